@@ -86,7 +86,46 @@ class C05(Case):
         return obs
 
 
+class C05Rule(Case):
+    """Rule trees (the C12 family): caching enabled x2 evaluations and caching disabled x2 evaluations on the same data."""
+    prop = "C05"
+
+    def run(self, mk):
+        from entity_query_language.cache_data import enable_caching, disable_caching
+        from props import c12
+        _wrap_retrieve()
+        inner = c12.C12(dict(self.spec["rule"], twice=True))
+        self._inner = inner
+        data = inner.prepare(mk)
+        out = {}
+        h0 = HITS["n"]
+        try:
+            for mode in ("on", "off"):
+                (enable_caching if mode == "on" else disable_caching)()
+                out[mode] = inner.build_and_evaluate(data["items"], 2)
+        except Exception as e:
+            enable_caching()
+            return data, ["exc", type(e).__name__, str(e)[:200]]
+        enable_caching()
+        data["hits"] = HITS["n"] - h0
+        return data, out
+
+    def metrics(self, data, outcome):
+        return dict(cache_hits=data.get("hits", 0), paths_with_cache_hit=1 if data.get("hits", 0) else 0)
+
+    def obligations(self, alg, data, outcome):
+        if isinstance(outcome, list) and outcome and outcome[0] == "exc":
+            return [("no_exception:%s:%s" % (outcome[1], outcome[2][:80]), alg.const(False))]
+        obs = []
+        for mode in ("on", "off"):
+            for lbl, t in self._inner.obligations(alg, data, outcome[mode]):
+                obs.append(("cache_%s:%s" % (mode, lbl), t))
+        return obs
+
+
 def make_case(spec):
+    if "rule" in spec:
+        return C05Rule(spec)
     return C05(spec)
 
 
@@ -147,6 +186,13 @@ def shapes(tier, seed):
                ["or", ["cmp", "eq", ["a", "w", "a"], ["a", "x", "a"]], ["cmp", "gt", ["a", "w", "b"], ["a", "y", "b"]]]]]:
         add(c, select=[["v", "x"], ["v", "y"], ["v", "w"]], base=B3)
         add(c, select=[["v", "w"], ["v", "x"]], base=B3)
+    # rule trees (every tree of the C12 grammar with <= 4 branches; branch-variable and pair-matching variants for <= 3)
+    from props import c12
+    for B in range(1, (4 if tier == "quick" else 5) + 1):
+        for t in c12.all_trees(B):
+            out.append(dict(rule=dict(tree=t)))
+            if B <= 3 and len(t) == 1:
+                out.append(dict(rule=dict(tree=t, join=True)))
     if tier == "thorough":
         skels = list(S.tree_skeletons(3))
         for _ in range(500):
